@@ -9,10 +9,12 @@ two quantities `max_del_energy`, `min_del_energy`.  The final `-dE / log(p)` use
 outside the exact model: the result records *which* of the two shapes (`0` / `-dE/log p`) each returned
 temperature has, together with the rational `dE`.
 
-What the function reads from a model object is the **cached** variable set `model._variables`
-(`qubovert/utils/_pubomatrix.py:148, 380-386`: every label of a squashed key that was ever stored with a
-non-zero value; never shrinks), not the labels of the current keys.  Only a plain `dict` falls back to the
-labels of its keys.  So the model carries the cache along the object's history (`MState`, `Edit`).
+The function reads the variables that actually appear in the model on every path:
+`variables = set(v for k in model for v in k)` (since the repair of defect D6; before it read the
+**cached** `model._variables` of a model object, which can be stale after terms cancelled).  The cache
+(`qubovert/utils/_pubomatrix.py:148, 380-386`: every label of a squashed key ever stored with a non-zero
+value; never shrinks) is still modelled along the object's history (`MState`, `Edit`): the correspondence
+compares it, and it shows that the terms the function iterates are independent of it.
 -/
 namespace Qv
 
@@ -115,7 +117,7 @@ def absSum (v : Var) : Poly → Rat
   | [] => 0
   | (k, c) :: r => if v ∈ k then absR c + absSum v r else absSum v r
 
-/-- `set(v for k in model for v in k)` (plain dict: no cache) -/
+/-- `set(v for k in model for v in k)` -/
 def keysVars (vars : List Var) : Poly → List Var
   | [] => vars
   | (k, _) :: r => keysVars (addVars vars k) r
@@ -147,16 +149,22 @@ def tempRangeCore (p : Poly) (vars : List Var) (ps pe : Rat) : Except Err (Temp 
     | some M =>
       .ok (if ps = 0 then .zero else .ofDelta (2 * M), if pe = 0 then .zero else .ofDelta (2 * m))
 
-/-- terms and variable set after `if not spin: model = pubo_to_puso(model)` and the `try: model._variables
-except AttributeError: set(...)` -/
+/-- terms after `if not spin: model = pubo_to_puso(model)` and the variable set
+`set(v for k in model for v in k)` computed from the keys of those terms (the cache of a model object is
+not read) -/
 def readModel (inp : Input) (spin : Bool) : Except Err MState :=
   match inp, spin with
   | .raw d, true => .ok ⟨d, keysVars [] d⟩
-  | .raw d, false => puboToPusoV d
-  | .obj κ d es, true => buildObj κ d es
+  | .raw d, false => do
+    let h ← puboToPusoV d
+    pure ⟨h.p, keysVars [] h.p⟩
+  | .obj κ d es, true => do
+    let s ← buildObj κ d es
+    pure ⟨s.p, keysVars [] s.p⟩
   | .obj κ d es, false => do
     let s ← buildObj κ d es
-    puboToPusoV s.p
+    let h ← puboToPusoV s.p
+    pure ⟨h.p, keysVars [] h.p⟩
 
 /-- `anneal_temperature_range(model, start_flip_prob = ps, end_flip_prob = pe, spin)` -/
 def tempRange (inp : Input) (ps pe : Rat) (spin : Bool) : Except Err (Temp × Temp) :=
